@@ -224,11 +224,12 @@ def __construct_expression_tree_with_list(tokens: List[Union[str, List]]) -> Exp
 
     # Initialize the two stacks
     operand_stack = []  # type: List[Union[Expression, str]]
-    operator_stack = ["base"]  # type: List[str]
+    # The bottom marker is not alphabetic, so it can never collide with a unit symbol
+    operator_stack = ["#base"]  # type: List[str]
 
     # Define the order of operations
     precedence = {
-        "base": 0,
+        "#base": 0,
         "*": 1,
         "/": 1,
         "^": 2
